@@ -135,4 +135,18 @@ def shapes(tier, seed):
             s.sid = 'zone:' + s.sid
             s.params['props'] = ['C17', 'C05']
             S.append(s)
+    # one directory named twice in different spellings (and the source directory named again) is still one directory
+    lines = ['.org o0', 'a: .byte 1, LSB(v2)', 'nop', 'b: .2byte a, b', '.byte 9']
+    prog = [('org', ('v', 'o0'), None), ('label', 'a'), ('data', '.byte', [('c', 1), ('lsb', ('v', 'v2'))]), ('instr', 'nop', None),
+            ('label', 'b'), ('data', '.2byte', [('lbl', 'a'), ('lbl', 'b')]), ('data', '.byte', [('c', 9)])]
+    for nm, dirs in {'twice': ['lib', 'lib'], 'dot-slash': ['lib', './lib'], 'round-trip': ['lib', 'lib/../lib'],
+                     'trailing-slash': ['lib/', 'lib'], 'source-dir-again': ['.', 'lib'], 'nested-round-trip': ['lib/sub/..', 'lib'],
+                     'symbolic-link': ['lib', 'lib2']}.items():
+        files = {'main.asm': '\n'.join(lines[:2]) + '\n#include "part.asm"\n' + lines[4] + '\n#include "top.asm"\n',
+                 'lib/part.asm': '\n'.join(lines[2:4]) + '\n', 'top.asm': '; nothing\n', 'lib/sub/keep.asm': '; keeps the directory\n'}
+        if nm == 'symbolic-link':
+            files['lib2'] = 'SYMLINK:lib'
+        S.append(SplitShape(f'dirs:{nm}', prog={'main.asm': prog}, files=files,
+                            cfgargs=dict(origin=Sym('o0', 0, 0x1000), consts={'v2': c02.SYMS['v2'], 'o0': (0, 0x1000)}),
+                            props=['C17'], binary=True, start=Sym('o0', 0, 0x1000), include_dirs=dirs, width=48, expect=['ok']))
     return S + reject_shapes()
